@@ -1,3 +1,4 @@
 import Liftbridge.Base
 import Liftbridge.Cmp
 import Liftbridge.Model.Envelope
+import Liftbridge.Model.Log
